@@ -26,8 +26,12 @@ FULL_ENUM_LIMIT = 1200  # responses up to this many wire bytes get *every* cut /
 def net_for(case):
     plans = {"t0": case["plan"], "t1": {}}
     if case["proto"] == "h2":
+        script = []
+        if case.get("h2_goaway_after"):
+            # graceful shutdown: GOAWAY(NO_ERROR, last-stream-id = the stream just answered) right after the response
+            script = [{"when": {"event": "response_sent", "n": 0}, "do": [{"goaway": {"last": "equal"}}]}]
         return NetConfig(endpoints={"a.test:443": {"role": "origin", "alpn": "h2"}}, plans=plans,
-                         h2={"initial_settings": case.get("h2_settings", {"3": 100})})
+                         h2={"initial_settings": case.get("h2_settings", {"3": 100}), "script": script})
     return NetConfig(plans=plans)
 
 
@@ -261,6 +265,8 @@ def execute(case) -> Outcome:
                 tags.append(k)
     if len(tr["body"]) == 0:
         tags.append("empty-body")
+    if case.get("h2_goaway_after"):
+        tags.append("graceful-goaway-after-response")
     if n > FULL_ENUM_LIMIT:
         tags.append("big")
     nontrivial = metrics["structural_cut_runs"] > 0 and metrics["trunc_runs"] > 0
@@ -280,6 +286,7 @@ def cases(draw, proto=None, big=False):
          "api": draw(st.sampled_from(["stream", "request"]))}
     if proto == "h2":
         c["h2_mode"] = draw(st.sampled_from(["alpn", "prior"]))
+        c["h2_goaway_after"] = draw(st.sampled_from([False, False, True]))
     return c
 
 
